@@ -32,9 +32,9 @@ func TestVerifC19(t *testing.T) {
 		return
 	}
 	rng := hk.NewRNG(hk.Seed(), "c19")
-	hostilePrelude(hk.NewRNG(hk.Seed(), "prelude"))
-	d := randScalar(rng)
-	P := refPub(d)
+	zvHostilePrelude(hk.NewRNG(hk.Seed(), "prelude"))
+	d := zvRandScalar(rng)
+	P := zvRefPub(d)
 	px, py := ref.B32(P.X), ref.B32(P.Y)
 	priv := ref.B32(d)
 	e := rng.Bytes(32)
@@ -56,8 +56,8 @@ func TestVerifC19(t *testing.T) {
 				copy(src[j:], bytes.Repeat([]byte{0xff}, 32)) // whole candidates before the failure are rejected ones
 			}
 			for ei, entry := range []string{"GenerateKey", "SignHashed"} {
-				rd := newScript(src)
-				rd.failErr = []error{nil, errCustom, syscall.EAGAIN}[(i+ei)%3]
+				rd := zvNewScript(src)
+				rd.failErr = []error{nil, zvErrCustom, syscall.EAGAIN}[(i+ei)%3]
 				crand.Reader = io.Reader(rd)
 				var a, b []byte
 				var err error
@@ -70,7 +70,7 @@ func TestVerifC19(t *testing.T) {
 				})
 				crand.Reader = saved
 				if p || err == nil || a != nil || b != nil {
-					r.Violation("result-returned-although-source-failed:"+entry+":source-is-the-replaced-crypto-rand-Reader", hk.D{"bytes_before_failure": good, "stream": hk.Hex(src), "a": hexOrNil(a), "b": hexOrNil(b), "error": errStr(err), "panic": pm})
+					r.Violation("result-returned-although-source-failed:"+entry+":source-is-the-replaced-crypto-rand-Reader", hk.D{"bytes_before_failure": good, "stream": hk.Hex(src), "a": zvHexOrNil(a), "b": zvHexOrNil(b), "error": zvErrStr(err), "panic": pm})
 				}
 				r.Eval(fmt.Sprintf("%s:source=replaced-crypto/rand.Reader,fails-after=%d", entry, good))
 			}
@@ -78,11 +78,11 @@ func TestVerifC19(t *testing.T) {
 		crand.Reader = saved
 	}
 
-	over := [][]byte{ref.B32(nI), ref.B32(new(big.Int).Add(nI, bi(1))), ref.B32(new(big.Int).Sub(b256, bi(1))), ref.B32(nm1)}
+	over := [][]byte{ref.B32(zvNI), ref.B32(new(big.Int).Add(zvNI, zvBi(1))), ref.B32(new(big.Int).Sub(zvB256, zvBi(1))), ref.B32(zvNm1)}
 	// n-1 is rejected by key generation; for signing it is a legal nonce, so the
 	// model decides per entry point.
 	// error VALUES: plain, sentinel, self-classifying (Temporary/Timeout), errno, wrapped
-	errKinds := []error{nil, io.ErrUnexpectedEOF, errCustom, errTemporary{}, errTemporary{timeout: true}, syscall.EAGAIN, syscall.EINTR, os.ErrDeadlineExceeded, context.DeadlineExceeded,
+	errKinds := []error{nil, io.ErrUnexpectedEOF, zvErrCustom, zvErrTemporary{}, zvErrTemporary{timeout: true}, syscall.EAGAIN, syscall.EINTR, os.ErrDeadlineExceeded, context.DeadlineExceeded,
 		fmt.Errorf("read /dev/hwrng: %w", syscall.EAGAIN), io.ErrNoProgress, io.ErrShortBuffer, &os.PathError{Op: "read", Path: "/dev/random", Err: syscall.EINTR}}
 	errNames := []string{"EOF", "ErrUnexpectedEOF", "custom", "Temporary", "Temporary+Timeout", "EAGAIN", "EINTR", "os.ErrDeadlineExceeded", "context.DeadlineExceeded", "wrapped-EAGAIN", "ErrNoProgress", "ErrShortBuffer", "PathError-EINTR"}
 	chunks := []int{0, 1, 7, 31}
@@ -108,7 +108,7 @@ func TestVerifC19(t *testing.T) {
 			for j := 0; j < nrej; j++ {
 				stream = append(stream, over[(j+variant+nrej)%3]...) // always >= n: rejected by both
 			}
-			stream = append(stream, ref.B32(randScalar(rng))...)
+			stream = append(stream, ref.B32(zvRandScalar(rng))...)
 			stream = append(stream, rng.Bytes(32)...)
 			for _, entry := range entries {
 				for failAt := 0; failAt <= (nrej+1)*32+1; failAt++ {
@@ -127,7 +127,7 @@ func TestVerifC19(t *testing.T) {
 				// and as TRANSIENT failures (reported once, data continues afterwards): any reported error must
 				// end the call with an error
 				for failAt := 0; failAt <= (nrej+1)*32+1; failAt++ {
-					for src := 0; src < len(sourceKindNames); src++ {
+					for src := 0; src < len(zvSourceKindNames); src++ {
 						for ti, tr := range []bool{false, true} {
 							if src == 0 && !tr {
 								continue
@@ -152,8 +152,8 @@ func TestVerifC19(t *testing.T) {
 		}
 	}
 	// streams whose first candidate is 0 or n-1 (model decides)
-	for _, first := range [][]byte{make([]byte, 32), ref.B32(nm1)} {
-		stream := append(append([]byte{}, first...), ref.B32(randScalar(rng))...)
+	for _, first := range [][]byte{make([]byte, 32), ref.B32(zvNm1)} {
+		stream := append(append([]byte{}, first...), ref.B32(zvRandScalar(rng))...)
 		for _, entry := range entries {
 			for failAt := 30; failAt <= 66; failAt++ {
 				cases = append(cases, fcase{entry: entry, stream: stream, failAt: failAt, ek: failAt % 3, withData: failAt%2 == 0, chunk: chunks[failAt%4], nrej: 1})
@@ -182,24 +182,24 @@ func TestVerifC19(t *testing.T) {
 		if c.failAt >= 0 && c.failAt < len(avail) {
 			avail = avail[:c.failAt]
 		}
-		rd := newScript(c.stream)
+		rd := zvNewScript(c.stream)
 		rd.failAt, rd.failErr, rd.failWithData, rd.chunk, rd.zeroEvery, rd.transient, rd.repeat = c.failAt, errKinds[c.ek], c.withData, c.chunk, c.zero, c.trans, c.repeat
-		src := wrapSource(rd, c.src)
-		det := hk.D{"source_type": sourceKindNames[c.src], "transient": c.trans, "entry": c.entry, "stream": hk.Hex(c.stream), "fail_at": c.failAt, "err_kind": errNames[c.ek], "with_data": c.withData, "chunk": c.chunk, "zero_every": c.zero, "priv": hk.Hex(priv)}
+		src := zvWrapSource(rd, c.src)
+		det := hk.D{"source_type": zvSourceKindNames[c.src], "transient": c.trans, "entry": c.entry, "stream": hk.Hex(c.stream), "fail_at": c.failAt, "err_kind": errNames[c.ek], "with_data": c.withData, "chunk": c.chunk, "zero_every": c.zero, "priv": hk.Hex(priv)}
 		pos := "none"
 		if c.failAt >= 0 {
 			pos = fmt.Sprintf("cand%d+%d", c.failAt/32, c.failAt%32)
 		}
 		cls := fmt.Sprintf("%s:nrej=%d,fail=%s", c.entry, c.nrej, pos)
 		if c.src != 0 || c.trans {
-			cls = fmt.Sprintf("%s:src=%s,transient=%v,repeat=%d,nrej=%d,fail=+%d", c.entry, sourceKindNames[c.src], c.trans, c.repeat, c.nrej, c.failAt%32)
+			cls = fmt.Sprintf("%s:src=%s,transient=%v,repeat=%d,nrej=%d,fail=+%d", c.entry, zvSourceKindNames[c.src], c.trans, c.repeat, c.nrej, c.failAt%32)
 		}
 		if c.entry == "GenerateKey" {
 			model := ref.SM2KeyGen(avail)
 			var gp, gx, gy []byte
 			var err error
 			p, pm, _, _ := hk.Try(func() { gp, gx, gy, err = GenerateKey(src) })
-			det["priv_out"], det["x"], det["y"], det["error"] = hexOrNil(gp), hexOrNil(gx), hexOrNil(gy), errStr(err)
+			det["priv_out"], det["x"], det["y"], det["error"] = zvHexOrNil(gp), zvHexOrNil(gx), zvHexOrNil(gy), zvErrStr(err)
 			det["reads"] = rd.events
 			switch {
 			case p:
@@ -237,7 +237,7 @@ func TestVerifC19(t *testing.T) {
 				rr, ss, err = Sign(id, px, py, src, priv, msg)
 			}
 		})
-		det["r"], det["s"], det["error"] = hexOrNil(rr), hexOrNil(ss), errStr(err)
+		det["r"], det["s"], det["error"] = zvHexOrNil(rr), zvHexOrNil(ss), zvErrStr(err)
 		det["reads"] = rd.events
 		switch {
 		case p:
@@ -257,28 +257,28 @@ func TestVerifC19(t *testing.T) {
 	// the source fails at every offset of the redraw: error and NOTHING else must come back
 	for _, rule := range []string{"r=0", "r+k=n", "s=0"} {
 		for rep := 0; rep < hk.N(2, 6); rep++ {
-			k1 := randScalar(rng)
+			k1 := zvRandScalar(rng)
 			x1 := ref.BaseMulFast(k1).X
 			var rT *big.Int
 			switch rule {
 			case "r=0":
-				rT = bi(0)
+				rT = zvBi(0)
 			case "r+k=n":
-				rT = new(big.Int).Sub(nI, k1)
+				rT = new(big.Int).Sub(zvNI, k1)
 			default:
 				rT = ref.ModN(new(big.Int).Mul(k1, ref.InvN(d)))
 			}
 			eL := ref.B32(ref.ModN(new(big.Int).Sub(rT, x1)))
-			stream := append(ref.B32(k1), ref.B32(randScalar(rng))...)
+			stream := append(ref.B32(k1), ref.B32(zvRandScalar(rng))...)
 			for failAt := 32; failAt < 64; failAt += 1 + rep {
 				for ek := range errKinds {
-					rd := newScript(stream)
+					rd := zvNewScript(stream)
 					rd.failAt, rd.failErr, rd.failWithData = failAt, errKinds[ek], failAt%2 == 0
 					model := ref.SM2Sign(d, eL, stream[:failAt])
 					var rr, ss []byte
 					var err error
 					p, pm, _, _ := hk.Try(func() { rr, ss, err = SignHashed(rd, priv, eL) })
-					det := hk.D{"rule": rule, "stream": hk.Hex(stream), "fail_at": failAt, "e": hk.Hex(eL), "priv": hk.Hex(priv), "r": hexOrNil(rr), "s": hexOrNil(ss), "error": errStr(err)}
+					det := hk.D{"rule": rule, "stream": hk.Hex(stream), "fail_at": failAt, "e": hk.Hex(eL), "priv": hk.Hex(priv), "r": zvHexOrNil(rr), "s": zvHexOrNil(ss), "error": zvErrStr(err)}
 					switch {
 					case !model.Short || len(model.Rejected) != 1:
 						r.Inconclusive("c19: late-rejection stream not rejected by the model as planned")
@@ -301,15 +301,15 @@ func TestVerifC19(t *testing.T) {
 	for _, kl := range []int{1, 16, 31} {
 		db := append([]byte{1 + byte(rng.Intn(255))}, rng.Bytes(kl-1)...)
 		d2 := new(big.Int).SetBytes(db)
-		stream := append(ref.B32(randScalar(rng)), rng.Bytes(32)...)
+		stream := append(ref.B32(zvRandScalar(rng)), rng.Bytes(32)...)
 		for failAt := 0; failAt <= 33; failAt++ {
-			rd := newScript(stream)
+			rd := zvNewScript(stream)
 			rd.failAt, rd.failErr, rd.failWithData, rd.chunk = failAt, errKinds[failAt%3], failAt%2 == 0, []int{0, 1, 7}[failAt%3]
 			model := ref.SM2Sign(d2, e, stream[:failAt])
 			var rr, ss []byte
 			var err error
 			p, pm, _, _ := hk.Try(func() { rr, ss, err = SignHashed(rd, db, e) })
-			det := hk.D{"priv": hk.Hex(db), "keylen": kl, "stream": hk.Hex(stream), "fail_at": failAt, "r": hexOrNil(rr), "s": hexOrNil(ss), "error": errStr(err)}
+			det := hk.D{"priv": hk.Hex(db), "keylen": kl, "stream": hk.Hex(stream), "fail_at": failAt, "r": zvHexOrNil(rr), "s": zvHexOrNil(ss), "error": zvErrStr(err)}
 			switch {
 			case p:
 				det["panic"] = pm
@@ -337,10 +337,10 @@ func TestVerifC19(t *testing.T) {
 						for j := 0; j < nrej; j++ {
 							stream = append(stream, over[j%3]...)
 						}
-						stream = append(stream, ref.B32(randScalar(rng))...)
+						stream = append(stream, ref.B32(zvRandScalar(rng))...)
 						stream = append(stream, rng.Bytes(32)...)
 						at := nrej*32 + off
-						rd := newScript(stream)
+						rd := zvNewScript(stream)
 						rd.stallAt, rd.stallCount = at, cnt
 						if after == "eof" {
 							rd.failAt = at // nothing more after the stall: must be an error
@@ -364,7 +364,7 @@ func TestVerifC19(t *testing.T) {
 							okModel = after == "data" && err == nil && bytes.Equal(out1, ref.B32(m.R)) && bytes.Equal(out2, ref.B32(m.S))
 						}
 						gaveUp := err != nil && out2 == nil && (entry == "GenerateKey" && out3 == nil || entry != "GenerateKey" && out1 == nil)
-						det["error"], det["out"] = errStr(err), hexOrNil(out1)+","+hexOrNil(out2)
+						det["error"], det["out"] = zvErrStr(err), zvHexOrNil(out1)+","+zvHexOrNil(out2)
 						switch {
 						case p:
 							det["panic"] = pm
@@ -385,7 +385,7 @@ func TestVerifC19(t *testing.T) {
 		var err error
 		p, pm, _, _ := hk.Try(func() { gp, gx, gy, err = GenerateKey(nil) })
 		if p || err == nil || gx != nil || gy != nil {
-			r.Violation("nil-source-not-reported:GenerateKey", hk.D{"panic": pm, "err": errStr(err), "priv": hexOrNil(gp)})
+			r.Violation("nil-source-not-reported:GenerateKey", hk.D{"panic": pm, "err": zvErrStr(err), "priv": zvHexOrNil(gp)})
 		}
 		r.Eval("GenerateKey:nil-source")
 	}
